@@ -131,12 +131,16 @@ MANIFEST_TEXT.update({
 
 MANIFEST_TEXT.update({
     "C20": {
-        "level": "Narrowed claim: bounded model checking of the verdict algebra only - for every pair and triple of verdicts "
-                 "combination is Invalid-absorbing and Unknown-dominates-Valid (commutative, associative), predicates agree with "
-                 "their definitions. Exhaustive for this finite domain, decided by the solver over symbolic selectors.",
-        "note": "The accept/reject core (compare_layouts -> abi_stable) cannot be encoded: the Kani compiler ICEs on it. Mutants of "
-                "that core are outside this check.",
-        "technique": BMC + " (finite verdict domain, symbolic selectors)",
+        "level": "Narrowed claim, two parts. (1) Verdict algebra: for every pair and triple of verdicts combination is "
+                 "Invalid-absorbing and Unknown-dominates-Valid (commutative, associative), predicates agree with their "
+                 "definitions. (2) The wrapper around the comparison (compare_layouts, VerifyLayout::check): with abi_stable's "
+                 "recursive comparison replaced by a stub returning an arbitrary verdict, a missing description yields Unknown "
+                 "without consulting the comparison, two present descriptions yield Valid exactly when it accepts and Invalid "
+                 "otherwise, and it is asked with (expected, found) in that order. Exhaustive for these finite domains, decided "
+                 "by the solver over symbolic selectors.",
+        "note": "abi_stable's own accept/reject decision and the layout descriptions derived for generated structs cannot be "
+                "encoded (the Kani compiler ICEs on check_layout_compatibility). Mutants of that part are outside this check.",
+        "technique": BMC + " (finite verdict/selector domains; kani::stub for abi_stable's comparison)",
     },
 })
 
